@@ -51,3 +51,4 @@ run "dfa9e75 toml nil doc" C15 -- dfa9e75
 run "0ca17d9 bkld fallback (D11)" C15 -- 0ca17d9
 run "aadbaa0 yaml << quoting" C05 -- aadbaa0
 run "64284f9 YAML block-scalar guard" C14 C05 -- 64284f9
+run "56ab4b7 symlink cycle" C08 -- 56ab4b7
